@@ -1,6 +1,3 @@
-//@unit tree_offsets
-//@serves C03 C04 C05 C07 C08 C10
-//@backend verus
 // bbiread.rs: `read_cir_tree_header` and the two provided methods of `trait internal::BBIReadInternal`,
 // `full_data_cir_tree` and `zoom_cir_tree`: locate an R-tree (seek to the index offset, validate the 48-byte
 // cirTree header's magic in the file's byte order, answer `CirTreeIndex(kind, index_offset + 48)`) and CACHE the
@@ -16,7 +13,239 @@
 // `BigWigRead::full_data_cir_tree` / `zoom_cir_tree`).
 use vstd::prelude::*;
 verus! {
-//@include ../_shared/bytes.rs
+// ---- shared byte-level prelude ---------------------------------------------
+// Format vocabulary written from the published BBI layout (Kent et al. 2010),
+// as arithmetic on byte values - not as calls to from_le_bytes/to_le_bytes.
+/// k-th base-256 digit of x (opaque: the div/mod arithmetic is only unfolded inside the codec lemmas)
+#[verifier::opaque]
+pub open spec fn byte_of(x: int, k: int) -> u8 {
+    if k == 0 { (x % 256) as u8 } else if k == 1 { (x / 256 % 256) as u8 } else if k == 2 { (x / 65536 % 256) as u8 }
+    else if k == 3 { (x / 16777216 % 256) as u8 } else if k == 4 { (x / 4294967296 % 256) as u8 }
+    else if k == 5 { (x / 1099511627776 % 256) as u8 } else if k == 6 { (x / 281474976710656 % 256) as u8 }
+    else { (x / 72057594037927936 % 256) as u8 }
+}
+pub open spec fn le16(x: u16) -> Seq<u8> { seq![byte_of(x as int, 0), byte_of(x as int, 1)] }
+pub open spec fn le32(x: u32) -> Seq<u8> { seq![byte_of(x as int, 0), byte_of(x as int, 1), byte_of(x as int, 2), byte_of(x as int, 3)] }
+pub open spec fn le64(x: u64) -> Seq<u8> {
+    seq![byte_of(x as int, 0), byte_of(x as int, 1), byte_of(x as int, 2), byte_of(x as int, 3),
+         byte_of(x as int, 4), byte_of(x as int, 5), byte_of(x as int, 6), byte_of(x as int, 7)]
+}
+pub open spec fn be16(x: u16) -> Seq<u8> { seq![byte_of(x as int, 1), byte_of(x as int, 0)] }
+pub open spec fn be32(x: u32) -> Seq<u8> { seq![byte_of(x as int, 3), byte_of(x as int, 2), byte_of(x as int, 1), byte_of(x as int, 0)] }
+pub open spec fn be64(x: u64) -> Seq<u8> {
+    seq![byte_of(x as int, 7), byte_of(x as int, 6), byte_of(x as int, 5), byte_of(x as int, 4),
+         byte_of(x as int, 3), byte_of(x as int, 2), byte_of(x as int, 1), byte_of(x as int, 0)]
+}
+// decode: value of the little-/big-endian integer stored at s[i..]
+pub open spec fn dle16(s: Seq<u8>, i: int) -> int { s[i] as int + 256 * (s[i + 1] as int) }
+pub open spec fn dle32(s: Seq<u8>, i: int) -> int {
+    s[i] as int + 256 * (s[i + 1] as int) + 65536 * (s[i + 2] as int) + 16777216 * (s[i + 3] as int)
+}
+pub open spec fn dle64(s: Seq<u8>, i: int) -> int { dle32(s, i) + 4294967296 * dle32(s, i + 4) }
+pub open spec fn dbe16(s: Seq<u8>, i: int) -> int { 256 * (s[i] as int) + s[i + 1] as int }
+pub open spec fn dbe32(s: Seq<u8>, i: int) -> int {
+    16777216 * (s[i] as int) + 65536 * (s[i + 1] as int) + 256 * (s[i + 2] as int) + s[i + 3] as int
+}
+pub open spec fn dbe64(s: Seq<u8>, i: int) -> int { 4294967296 * dbe32(s, i) + dbe32(s, i + 4) }
+/// integer at s[i..] in byte order `big`
+pub open spec fn d16(big: bool, s: Seq<u8>, i: int) -> int { if big { dbe16(s, i) } else { dle16(s, i) } }
+pub open spec fn d32(big: bool, s: Seq<u8>, i: int) -> int { if big { dbe32(s, i) } else { dle32(s, i) } }
+pub open spec fn d64(big: bool, s: Seq<u8>, i: int) -> int { if big { dbe64(s, i) } else { dle64(s, i) } }
+pub open spec fn e16(big: bool, x: u16) -> Seq<u8> { if big { be16(x) } else { le16(x) } }
+pub open spec fn e32(big: bool, x: u32) -> Seq<u8> { if big { be32(x) } else { le32(x) } }
+pub open spec fn e64(big: bool, x: u64) -> Seq<u8> { if big { be64(x) } else { le64(x) } }
+
+// Floats on disk: IEEE bit patterns.  `to_bits`/`from_bits` are uninterpreted; the only
+// assumed fact is that they are inverse (true of Rust's f32::to_bits/from_bits bit-for-bit).
+pub uninterp spec fn f32_bits(x: f32) -> u32;
+pub uninterp spec fn f32_of_bits(b: u32) -> f32;
+pub uninterp spec fn f64_bits(x: f64) -> u64;
+pub uninterp spec fn f64_of_bits(b: u64) -> f64;
+pub broadcast axiom fn ax_f32_bits_inv(x: f32) ensures #[trigger] f32_of_bits(f32_bits(x)) == x;
+pub broadcast axiom fn ax_f64_bits_inv(x: f64) ensures #[trigger] f64_of_bits(f64_bits(x)) == x;
+
+#[verifier::external_body]
+#[derive(Debug)]
+pub struct IoError { _p: u8 }
+
+#[verifier::external_body]
+pub fn vpanic() -> !
+    requires false
+{ panic!() }
+
+// ---- Sink: append-only in-memory writer (`Vec<u8>` used through byteorder::WriteBytesExt / io::Write).
+// Assumed contracts: NativeEndian == LittleEndian (x86-64 / aarch64 targets); writes to a Vec never
+// fail, the io::Result plumbing is kept so that `?` in the code typechecks.
+pub struct Sink { pub bytes: Vec<u8> }
+impl Sink {
+    pub open spec fn view(&self) -> Seq<u8> { self.bytes@ }
+    #[verifier::external_body]
+    pub fn with_capacity(n: usize) -> (r: Sink) ensures r@.len() == 0 { Sink { bytes: Vec::with_capacity(n) } }
+    pub fn len(&self) -> (r: usize) ensures r == self@.len() { self.bytes.len() }
+    #[verifier::external_body]
+    pub fn put_u8(&mut self, v: u8) -> (r: Result<(), IoError>)
+        ensures r.is_ok(), final(self)@ == old(self)@.push(v) { unimplemented!() }
+    #[verifier::external_body]
+    pub fn put_u16(&mut self, v: u16) -> (r: Result<(), IoError>)
+        ensures r.is_ok(), final(self)@ == old(self)@ + le16(v) { unimplemented!() }
+    #[verifier::external_body]
+    pub fn put_u32(&mut self, v: u32) -> (r: Result<(), IoError>)
+        ensures r.is_ok(), final(self)@ == old(self)@ + le32(v) { unimplemented!() }
+    #[verifier::external_body]
+    pub fn put_u64(&mut self, v: u64) -> (r: Result<(), IoError>)
+        ensures r.is_ok(), final(self)@ == old(self)@ + le64(v) { unimplemented!() }
+    #[verifier::external_body]
+    pub fn put_f32(&mut self, v: f32) -> (r: Result<(), IoError>)
+        ensures r.is_ok(), final(self)@ == old(self)@ + le32(f32_bits(v)) { unimplemented!() }
+    #[verifier::external_body]
+    pub fn put_f64(&mut self, v: f64) -> (r: Result<(), IoError>)
+        ensures r.is_ok(), final(self)@ == old(self)@ + le64(f64_bits(v)) { unimplemented!() }
+    #[verifier::external_body]
+    pub fn put_bytes(&mut self, b: &[u8]) -> (r: Result<(), IoError>)
+        ensures r.is_ok(), final(self)@ == old(self)@ + b@ { unimplemented!() }
+}
+
+// ---- FSink: seekable destination (`BufWriter<W: Write + Seek>`).  Ghost image `data()` and
+// position `pos()`.  A put at `pos` overwrites/extends the image; any operation may fail, in
+// which case nothing is promised about the image (callers must propagate the error).
+#[verifier::external_body]
+pub struct FSink { _p: u8 }
+pub open spec fn splice(d: Seq<u8>, at: int, b: Seq<u8>) -> Seq<u8>
+    recommends 0 <= at <= d.len()
+{
+    if at + b.len() >= d.len() { d.subrange(0, at) + b } else { d.subrange(0, at) + b + d.subrange(at + b.len(), d.len() as int) }
+}
+impl FSink {
+    pub uninterp spec fn data(&self) -> Seq<u8>;
+    pub uninterp spec fn pos(&self) -> int;
+    pub open spec fn wf(&self) -> bool { 0 <= self.pos() <= self.data().len() }
+    #[verifier::external_body]
+    pub fn tell(&mut self) -> (r: Result<u64, IoError>)
+        requires old(self).wf(), old(self).pos() <= u64::MAX
+        ensures final(self).data() == old(self).data(), final(self).pos() == old(self).pos(), r.is_ok() ==> r.unwrap() == old(self).pos()
+    { unimplemented!() }
+    #[verifier::external_body]
+    pub fn seek_start(&mut self, p: u64) -> (r: Result<u64, IoError>)
+        requires old(self).wf(), p <= old(self).data().len()
+        ensures final(self).data() == old(self).data(), r.is_ok() ==> (final(self).pos() == p && r.unwrap() == p), final(self).wf()
+    { unimplemented!() }
+    #[verifier::external_body]
+    pub fn seek_end0(&mut self) -> (r: Result<u64, IoError>)
+        requires old(self).wf()
+        ensures final(self).data() == old(self).data(), r.is_ok() ==> (final(self).pos() == old(self).data().len() && r.unwrap() == old(self).data().len()), final(self).wf()
+    { unimplemented!() }
+    #[verifier::external_body]
+    pub fn put(&mut self, b: &[u8]) -> (r: Result<(), IoError>)
+        requires old(self).wf()
+        ensures r.is_ok() ==> (final(self).data() == splice(old(self).data(), old(self).pos(), b@) && final(self).pos() == old(self).pos() + b@.len()), final(self).wf()
+    { unimplemented!() }
+    #[verifier::external_body]
+    pub fn put_u8(&mut self, v: u8) -> (r: Result<(), IoError>)
+        requires old(self).wf()
+        ensures r.is_ok() ==> (final(self).data() == splice(old(self).data(), old(self).pos(), seq![v]) && final(self).pos() == old(self).pos() + 1), final(self).wf()
+    { unimplemented!() }
+    #[verifier::external_body]
+    pub fn put_u16(&mut self, v: u16) -> (r: Result<(), IoError>)
+        requires old(self).wf()
+        ensures r.is_ok() ==> (final(self).data() == splice(old(self).data(), old(self).pos(), le16(v)) && final(self).pos() == old(self).pos() + 2), final(self).wf()
+    { unimplemented!() }
+    #[verifier::external_body]
+    pub fn put_u32(&mut self, v: u32) -> (r: Result<(), IoError>)
+        requires old(self).wf()
+        ensures r.is_ok() ==> (final(self).data() == splice(old(self).data(), old(self).pos(), le32(v)) && final(self).pos() == old(self).pos() + 4), final(self).wf()
+    { unimplemented!() }
+    #[verifier::external_body]
+    pub fn put_u64(&mut self, v: u64) -> (r: Result<(), IoError>)
+        requires old(self).wf()
+        ensures r.is_ok() ==> (final(self).data() == splice(old(self).data(), old(self).pos(), le64(v)) && final(self).pos() == old(self).pos() + 8), final(self).wf()
+    { unimplemented!() }
+    #[verifier::external_body]
+    pub fn put_f64(&mut self, v: f64) -> (r: Result<(), IoError>)
+        requires old(self).wf()
+        ensures r.is_ok() ==> (final(self).data() == splice(old(self).data(), old(self).pos(), le64(f64_bits(v))) && final(self).pos() == old(self).pos() + 8), final(self).wf()
+    { unimplemented!() }
+}
+
+// ---- Cur: consuming reader over a byte buffer (`bytes::BytesMut` used through `bytes::Buf`).
+// `rem()` = bytes not yet consumed.  The `requires` are the real panics of the `bytes` crate
+// (reading past the end / split_to past the end).
+#[verifier::external_body]
+pub struct Cur { _p: u8 }
+impl Cur {
+    pub uninterp spec fn rem(&self) -> Seq<u8>;
+    #[verifier::external_body]
+    pub fn from_vec(v: &Vec<u8>) -> (r: Cur) ensures r.rem() == v@ { unimplemented!() }
+    #[verifier::external_body]
+    pub fn len(&self) -> (r: usize) ensures r == self.rem().len() { unimplemented!() }
+    #[verifier::external_body]
+    pub fn split_to(&mut self, n: usize) -> (r: Cur)
+        requires n <= old(self).rem().len()
+        ensures r.rem() == old(self).rem().subrange(0, n as int), final(self).rem() == old(self).rem().subrange(n as int, old(self).rem().len() as int)
+    { unimplemented!() }
+    #[verifier::external_body]
+    pub fn advance(&mut self, n: usize)
+        requires n <= old(self).rem().len()
+        ensures final(self).rem() == old(self).rem().subrange(n as int, old(self).rem().len() as int)
+    { unimplemented!() }
+    #[verifier::external_body]
+    pub fn get_u8(&mut self) -> (r: u8)
+        requires old(self).rem().len() >= 1
+        ensures r == old(self).rem()[0], final(self).rem() == old(self).rem().subrange(1, old(self).rem().len() as int)
+    { unimplemented!() }
+    #[verifier::external_body]
+    pub fn get_u16(&mut self) -> (r: u16)
+        requires old(self).rem().len() >= 2
+        ensures r == dbe16(old(self).rem(), 0), final(self).rem() == old(self).rem().subrange(2, old(self).rem().len() as int)
+    { unimplemented!() }
+    #[verifier::external_body]
+    pub fn get_u16_le(&mut self) -> (r: u16)
+        requires old(self).rem().len() >= 2
+        ensures r == dle16(old(self).rem(), 0), final(self).rem() == old(self).rem().subrange(2, old(self).rem().len() as int)
+    { unimplemented!() }
+    #[verifier::external_body]
+    pub fn get_u32(&mut self) -> (r: u32)
+        requires old(self).rem().len() >= 4
+        ensures r == dbe32(old(self).rem(), 0), final(self).rem() == old(self).rem().subrange(4, old(self).rem().len() as int)
+    { unimplemented!() }
+    #[verifier::external_body]
+    pub fn get_u32_le(&mut self) -> (r: u32)
+        requires old(self).rem().len() >= 4
+        ensures r == dle32(old(self).rem(), 0), final(self).rem() == old(self).rem().subrange(4, old(self).rem().len() as int)
+    { unimplemented!() }
+    #[verifier::external_body]
+    pub fn get_u64(&mut self) -> (r: u64)
+        requires old(self).rem().len() >= 8
+        ensures r == dbe64(old(self).rem(), 0), final(self).rem() == old(self).rem().subrange(8, old(self).rem().len() as int)
+    { unimplemented!() }
+    #[verifier::external_body]
+    pub fn get_u64_le(&mut self) -> (r: u64)
+        requires old(self).rem().len() >= 8
+        ensures r == dle64(old(self).rem(), 0), final(self).rem() == old(self).rem().subrange(8, old(self).rem().len() as int)
+    { unimplemented!() }
+    #[verifier::external_body]
+    pub fn get_f32(&mut self) -> (r: f32)
+        requires old(self).rem().len() >= 4
+        ensures r == f32_of_bits(dbe32(old(self).rem(), 0) as u32), final(self).rem() == old(self).rem().subrange(4, old(self).rem().len() as int)
+    { unimplemented!() }
+    #[verifier::external_body]
+    pub fn get_f32_le(&mut self) -> (r: f32)
+        requires old(self).rem().len() >= 4
+        ensures r == f32_of_bits(dle32(old(self).rem(), 0) as u32), final(self).rem() == old(self).rem().subrange(4, old(self).rem().len() as int)
+    { unimplemented!() }
+}
+// `uN::from_{le,be}_bytes([..])` (rule R4) with arithmetic contracts
+#[verifier::external_body]
+pub fn u32_from_le(b: [u8; 4]) -> (r: u32) ensures r == dle32(b@, 0) { u32::from_le_bytes(b) }
+#[verifier::external_body]
+pub fn u32_from_be(b: [u8; 4]) -> (r: u32) ensures r == dbe32(b@, 0) { u32::from_be_bytes(b) }
+#[verifier::external_body]
+pub fn u64_from_le(b: [u8; 8]) -> (r: u64) ensures r == dle64(b@, 0) { u64::from_le_bytes(b) }
+#[verifier::external_body]
+pub fn u64_from_be(b: [u8; 8]) -> (r: u64) ensures r == dbe64(b@, 0) { u64::from_be_bytes(b) }
+#[verifier::external_body]
+pub fn f32_from_le(b: [u8; 4]) -> (r: f32) ensures r == f32_of_bits(dle32(b@, 0) as u32) { f32::from_le_bytes(b) }
+#[verifier::external_body]
+pub fn f32_from_be(b: [u8; 4]) -> (r: f32) ensures r == f32_of_bits(dbe32(b@, 0) as u32) { f32::from_be_bytes(b) }
 
 /// shim for byteordered::Endianness (external crate, a plain 2-variant enum)
 #[derive(Clone, Copy)]
@@ -25,46 +254,63 @@ pub open spec fn is_big(e: Endianness) -> bool { e is Big }
 /// shim for itertools::Either (external crate, a plain 2-variant enum)
 pub enum Either<L, R> { Left(L), Right(R) }
 
-//@extract const bigtools/src/bbi.rs CIR_TREE_MAGIC
-//@rule R8
-//@end
-//@extract enum bigtools/src/bbi.rs BBIFile
-//@rule R8
-//@end
-//@extract struct bigtools/src/bbi.rs ZoomHeader
-//@rule R8
-//@end
-//@extract struct bigtools/src/bbi/bbiread.rs BBIHeader
-//@rule R8
-//@end
+pub const CIR_TREE_MAGIC: u32 = 0x2468_ACE0;
+#[derive(Copy, Clone)]
+pub enum BBIFile {
+    BigWig,
+    BigBed,
+}
+#[derive(Copy, Clone)]
+pub struct ZoomHeader {
+    pub reduction_level: u32,
+    pub data_offset: u64,
+    pub index_offset: u64,
+    pub index_tree_offset: Option<u64>,
+}
+#[derive(Copy, Clone)]
+pub struct BBIHeader {
+    pub endianness: Endianness,
+    pub version: u16,
+    pub field_count: u16,
+    pub defined_field_count: u16,
+
+    pub zoom_levels: u16,
+    pub chromosome_tree_offset: u64,
+    pub full_data_offset: u64,
+    pub full_index_offset: u64,
+    pub full_index_tree_offset: Option<u64>,
+    pub auto_sql_offset: u64,
+    pub total_summary_offset: u64,
+    pub uncompress_buf_size: u32,
+}
 // R11: `name: String` -> `name: Vec<u8>` (never inspected here)
-//@extract struct bigtools/src/bbi/bbiread.rs ChromInfo
-//@rule R8
-//@sub /#\[derive\(Clone\)\]\n/ => "" min=0
-//@sub /name: String/ => name: Vec<u8> min=1
-//@end
-//@extract struct bigtools/src/bbi/bbiread.rs BBIFileInfo
-//@rule R8
-//@sub /#\[derive\(Clone\)\]\n/ => "" min=0
-//@end
-//@extract enum bigtools/src/bbi/bbiread.rs CirTreeIndexType
-//@rule R8
-//@end
-//@extract struct bigtools/src/bbi/bbiread.rs CirTreeIndex
-//@rule R8
-//@end
-//@extract struct bigtools/src/bbi/bbiread.rs UnknownMagic
-//@rule R8
-//@end
+pub struct ChromInfo {
+    pub name: Vec<u8>,
+    pub length: u32,
+    pub id: u32,
+}
+pub struct BBIFileInfo {
+    pub filetype: BBIFile,
+    pub header: BBIHeader,
+    pub zoom_headers: Vec<ZoomHeader>,
+    pub chrom_info: Vec<ChromInfo>,
+}
+pub enum CirTreeIndexType {
+    FullData,
+    Zoom(u32),
+}
+pub struct CirTreeIndex(pub CirTreeIndexType, pub u64);
+pub struct UnknownMagic;
 // the two error enums live in `mod internal`; io::Error -> opaque IoError
-//@extract enum bigtools/src/bbi/bbiread.rs FullDataCirTreeError
-//@rule R8
-//@sub /io::Error/ => IoError min=1
-//@end
-//@extract enum bigtools/src/bbi/bbiread.rs ZoomDataCirTreeError
-//@rule R8
-//@sub /io::Error/ => IoError min=1
-//@end
+    pub enum FullDataCirTreeError {
+        UnknownMagic,
+        IoError(IoError),
+    }
+    pub enum ZoomDataCirTreeError {
+        UnknownMagic,
+        ReductionLevelNotFound,
+        IoError(IoError),
+    }
 
 // ---------------- reader shim: `R: Read + Seek` behind `BBIFileRead::raw_reader()` ----------------
 // Ghost file content, OS position and an environment flag (the next operations may fail for reasons outside the
@@ -119,40 +365,74 @@ pub open spec fn tree_hdr_bad_magic(big: bool, c: Seq<u8>, at: int) -> bool {
     &&& d32(big, c, at) != CIR_TREE_MAGIC
 }
 
-//@extract fn bigtools/src/bbi/bbiread.rs read_cir_tree_header
-//@rule R8
-//@sub /<R: Read \+ Seek>/ => "" min=1
-//@sub /file: &mut R,/ => file: &mut VRead, min=1
-//@sub /io::Error/ => IoError min=1
-//@sub /let mut header_data = BytesMut::zeroed\(([^;]*)\);\s*file\.read_exact\(&mut header_data\)\s*\.map_err\(\|e\| Either::Right\(e\)\)\?;/ => let mut header_data = match file.read_cur(\1) { Ok(v__) => v__, Err(e) => return Err(Either::Right(e)) }; min=1
-//@ret r
-//@sig
+pub fn read_cir_tree_header(
+    endianness: Endianness,
+    file: &mut VRead,
+) -> (r: Result<(), Either<UnknownMagic, IoError>>)
     ensures
-        [[L: file_not_modified]]
+        
         final(file).content() == old(file).content() && final(file).env_ok() == old(file).env_ok(),
-        [[L: ok_only_for_a_stored_header_with_the_magic_in_that_byte_order]]
+        
         r is Ok ==> tree_hdr_ok(is_big(endianness), old(file).content(), old(file).pos()),
-        [[L: stored_header_with_the_magic_is_accepted]]
+        
         old(file).env_ok() && tree_hdr_ok(is_big(endianness), old(file).content(), old(file).pos()) ==> r is Ok,
-        [[L: wrong_magic_is_unknown_magic]]
+        
         old(file).env_ok() && tree_hdr_bad_magic(is_big(endianness), old(file).content(), old(file).pos())
             ==> r matches Err(Either::Left(_)),
-        [[L: unknown_magic_only_for_a_stored_header_without_the_magic]]
+        
         r matches Err(Either::Left(_)) ==> tree_hdr_bad_magic(is_big(endianness), old(file).content(), old(file).pos()),
-        [[L: io_error_only_for_a_short_file_or_a_failing_environment]]
+        
         r matches Err(Either::Right(_)) ==> !old(file).env_ok() || old(file).pos() < 0
             || old(file).pos() + 48 > old(file).content().len(),
-        [[L: consumes_exactly_48_bytes]]
+        
         (r is Ok || r matches Err(Either::Left(_))) ==> final(file).pos() == old(file).pos() + 48,
-        [[L: file_length_fits_u64]]
+        
         (r is Ok || r matches Err(Either::Left(_))) ==> old(file).pos() + 48 <= u64::MAX,
-//@at /^\s*match endianness \{/ before
+{
+    let mut header_data = match file.read_cur(48) { Ok(v__) => v__, Err(e) => return Err(Either::Right(e)) };
+
+
     proof {
-        [[L: body/header_is_the_48_bytes_at_the_reader_position]]
+        
         assert(header_data.rem() == old(file).content().subrange(old(file).pos(), old(file).pos() + 48));
         assert(d32(is_big(endianness), header_data.rem(), 0) == d32(is_big(endianness), old(file).content(), old(file).pos()));
     }
-//@end
+    match endianness {
+        Endianness::Big => {
+            let magic = header_data.get_u32();
+            if magic != CIR_TREE_MAGIC {
+                return Err(Either::Left(UnknownMagic));
+            }
+
+            let _blocksize = header_data.get_u32();
+            let _item_count = header_data.get_u64();
+            let _start_chrom_idx = header_data.get_u32();
+            let _start_base = header_data.get_u32();
+            let _end_chrom_idx = header_data.get_u32();
+            let _end_base = header_data.get_u32();
+            let _end_file_offset = header_data.get_u64();
+            let _item_per_slot = header_data.get_u32();
+            let _reserved = header_data.get_u32();
+        }
+        Endianness::Little => {
+            let magic = header_data.get_u32_le();
+            if magic != CIR_TREE_MAGIC {
+                return Err(Either::Left(UnknownMagic));
+            }
+
+            let _blocksize = header_data.get_u32_le();
+            let _item_count = header_data.get_u64_le();
+            let _start_chrom_idx = header_data.get_u32_le();
+            let _start_base = header_data.get_u32_le();
+            let _end_chrom_idx = header_data.get_u32_le();
+            let _end_base = header_data.get_u32_le();
+            let _end_file_offset = header_data.get_u64_le();
+            let _item_per_slot = header_data.get_u32_le();
+            let _reserved = header_data.get_u32_le();
+        }
+    };
+    Ok(())
+}
 
 // ---------------- the cache slots ----------------
 /// index of the FIRST zoom header, from position i on, whose reduction level is l
@@ -195,7 +475,7 @@ pub open spec fn no_caches(info: BBIFileInfo) -> bool {
 pub proof fn lemma_fresh_info_is_coherent(info: BBIFileInfo)
     requires no_caches(info),
     ensures
-        [[L: fresh_info_from_read_info_is_coherent]]
+        
         offsets_ok(info),
 {}
 /// `b` is `a` except possibly for the full-data cache slot
@@ -284,137 +564,164 @@ pub fn zoom_rfind_mut(v: &mut Vec<ZoomHeader>, reduction_level: u32) -> (r: Opti
 pub struct VBbi { pub read: VRead, pub info: BBIFileInfo }
 
 impl VBbi {
-//@extract fn bigtools/src/bbi/bbiread.rs full_data_cir_tree
-//@rule R8
-//@sub /^(\s*)fn full_data_cir_tree/ => \1pub fn full_data_cir_tree min=1
-//@sub /let \(reader, info\) = self\.reader_and_info\(\);/ => let reader = &mut self.read; let info = &mut self.info; min=1
-//@sub /\s*\.raw_reader\(\)/ => "" min=0
-//@sub /\.seek\((?:io::)?SeekFrom::Start\(([^;]*?)\)\)/ => .seek_start(\1) min=0
-//@sub /(\b\w+\s*\.seek_start\([^;]*?\))\s*\.map_err\(\|e\| (\w+)::IoError\(e\)\)\?;/ => match \1 { Ok(v__) => v__, Err(e) => return Err(\2::IoError(e)) }; min=0
-//@sub /(read_cir_tree_header\([^;]*?\))\s*\.map_err\(\|e\| match e \{(.*?)\}\)\?;/ => match \1 { Ok(v__) => v__, Err(e) => return Err(match e {\2}) }; min=0
-//@ret r
-//@sig
+pub fn full_data_cir_tree(&mut self) -> (r: Result<CirTreeIndex, FullDataCirTreeError>)
     requires
-        [[L: full/pre_a_cached_position_did_not_wrap_around]]
+        
         old(self).info.header.full_index_tree_offset is Some ==> old(self).info.header.full_index_offset + 48 <= u64::MAX,
     ensures
-        [[L: full/answer_is_full_index_offset_plus_48_whatever_the_caches_hold]]
+        
         r matches Ok(t) ==> t.0 is FullData && t.1 == old(self).info.header.full_index_offset + 48,
-        [[L: full/file_not_modified]]
+        
         final(self).read.content() == old(self).read.content() && final(self).read.env_ok() == old(self).read.env_ok(),
-        [[L: full/first_call_succeeds_only_if_the_header_at_full_index_offset_validates_in_the_files_byte_order]]
+        
         old(self).info.header.full_index_tree_offset is None && r is Ok ==>
             tree_hdr_ok(is_big(old(self).info.header.endianness), old(self).read.content(), old(self).info.header.full_index_offset as int),
-        [[L: full/first_call_accepts_a_valid_header]]
+        
         old(self).info.header.full_index_tree_offset is None && old(self).read.env_ok()
             && tree_hdr_ok(is_big(old(self).info.header.endianness), old(self).read.content(), old(self).info.header.full_index_offset as int)
             ==> r is Ok,
-        [[L: full/first_call_reads_exactly_the_header]]
+        
         old(self).info.header.full_index_tree_offset is None && r is Ok ==>
             final(self).read.pos() == old(self).info.header.full_index_offset + 48,
-        [[L: full/cached_call_reads_nothing_and_cannot_fail]]
+        
         old(self).info.header.full_index_tree_offset is Some ==> r is Ok && final(self).read == old(self).read,
-        [[L: full/wrong_magic_is_unknown_magic]]
+        
         old(self).info.header.full_index_tree_offset is None && old(self).read.env_ok()
             && tree_hdr_bad_magic(is_big(old(self).info.header.endianness), old(self).read.content(), old(self).info.header.full_index_offset as int)
             ==> r matches Err(FullDataCirTreeError::UnknownMagic),
-        [[L: full/unknown_magic_only_for_a_stored_header_without_the_magic]]
+        
         r matches Err(FullDataCirTreeError::UnknownMagic) ==> old(self).info.header.full_index_tree_offset is None
             && tree_hdr_bad_magic(is_big(old(self).info.header.endianness), old(self).read.content(), old(self).info.header.full_index_offset as int),
-        [[L: full/io_error_only_for_a_short_file_or_a_failing_environment]]
+        
         r matches Err(FullDataCirTreeError::IoError(_)) ==> old(self).info.header.full_index_tree_offset is None
             && (!old(self).read.env_ok() || old(self).info.header.full_index_offset + 48 > old(self).read.content().len()),
-        [[L: full/first_success_caches_full_index_offset_plus_48_in_the_full_slot]]
+        
         old(self).info.header.full_index_tree_offset is None && r is Ok ==>
             final(self).info.header.full_index_tree_offset == Some((old(self).info.header.full_index_offset + 48) as u64),
-        [[L: full/cached_call_leaves_the_slot_alone]]
+        
         old(self).info.header.full_index_tree_offset is Some ==>
             final(self).info.header.full_index_tree_offset == old(self).info.header.full_index_tree_offset,
-        [[L: full/nothing_else_in_info_changes]]
+        
         same_but_full_slot(old(self).info, final(self).info),
-        [[L: full/an_error_caches_nothing]]
+        
         r is Err ==> final(self).info.header.full_index_tree_offset == old(self).info.header.full_index_tree_offset,
-        [[L: full/cache_coherence_is_kept]]
+        
         offsets_ok(old(self).info) ==> offsets_ok(final(self).info),
-//@end
+{
+            let reader = &mut self.read; let info = &mut self.info;
+            let index_offset = info.header.full_index_offset;
+            if info.header.full_index_tree_offset.is_none() {
+                let endianness = info.header.endianness;
 
-//@extract fn bigtools/src/bbi/bbiread.rs zoom_cir_tree
-//@rule R8
-//@sub /^(\s*)fn zoom_cir_tree/ => \1pub fn zoom_cir_tree min=1
-//@sub /let \(reader, info\) = self\.reader_and_info\(\);/ => let reader = &mut self.read; let info = &mut self.info; min=1
-//@sub /\s*\.raw_reader\(\)/ => "" min=0
-//@sub /info\s*\.zoom_headers\s*\.iter_mut\(\)\s*\.find\(\|h\| h\.reduction_level == reduction_level\)/ => zoom_find_mut(&mut info.zoom_headers, reduction_level) min=0
-//@sub /info\s*\.zoom_headers\s*\.iter_mut\(\)\s*\.rev\(\)\s*\.find\(\|h\| h\.reduction_level == reduction_level\)/ => zoom_rfind_mut(&mut info.zoom_headers, reduction_level) min=0
-//@sub /info\s*\.zoom_headers\s*\.iter_mut\(\)\s*\.rfind\(\|h\| h\.reduction_level == reduction_level\)/ => zoom_rfind_mut(&mut info.zoom_headers, reduction_level) min=0
-//@sub /\.seek\((?:io::)?SeekFrom::Start\(([^;]*?)\)\)/ => .seek_start(\1) min=0
-//@sub /(\b\w+\s*\.seek_start\([^;]*?\))\s*\.map_err\(\|e\| (\w+)::IoError\(e\)\)\?;/ => match \1 { Ok(v__) => v__, Err(e) => return Err(\2::IoError(e)) }; min=0
-//@sub /(read_cir_tree_header\([^;]*?\))\s*\.map_err\(\|e\| match e \{(.*?)\}\)\?;/ => match \1 { Ok(v__) => v__, Err(e) => return Err(match e {\2}) }; min=0
-//@ret r
-//@sig
+                match reader
+                    .seek_start(index_offset) { Ok(v__) => v__, Err(e) => return Err(FullDataCirTreeError::IoError(e)) };
+
+                match read_cir_tree_header(endianness, reader) { Ok(v__) => v__, Err(e) => return Err(match e {
+                    Either::Left(_) => FullDataCirTreeError::UnknownMagic,
+                    Either::Right(e) => FullDataCirTreeError::IoError(e),
+                }) };
+
+                info.header.full_index_tree_offset = Some(index_offset + 48);
+            }
+            Ok(CirTreeIndex(CirTreeIndexType::FullData, index_offset + 48))
+        }
+
+pub fn zoom_cir_tree(
+            &mut self,
+            reduction_level: u32,
+        ) -> (r: Result<CirTreeIndex, ZoomDataCirTreeError>)
     requires
-        [[L: zoom/pre_a_cached_position_did_not_wrap_around]]
+        
         first_level(old(self).info.zoom_headers@, reduction_level) matches Some(i) ==>
             (old(self).info.zoom_headers@[i].index_tree_offset is Some ==> old(self).info.zoom_headers@[i].index_offset + 48 <= u64::MAX),
     ensures
-        [[L: zoom/unknown_level_is_reduction_level_not_found_and_nothing_changes]]
+        
         first_level(old(self).info.zoom_headers@, reduction_level) is None ==>
             (r matches Err(ZoomDataCirTreeError::ReductionLevelNotFound)) && final(self).read == old(self).read
             && final(self).info.zoom_headers@ == old(self).info.zoom_headers@,
-        [[L: zoom/level_not_found_only_for_an_unknown_level]]
+        
         r matches Err(ZoomDataCirTreeError::ReductionLevelNotFound) ==> first_level(old(self).info.zoom_headers@, reduction_level) is None,
-        [[L: zoom/answer_is_index_offset_plus_48_of_the_first_header_of_that_level_whatever_the_caches_hold]]
+        
         r matches Ok(t) ==> (first_level(old(self).info.zoom_headers@, reduction_level) matches Some(i)
             && t.0 == CirTreeIndexType::Zoom(reduction_level) && t.1 == old(self).info.zoom_headers@[i].index_offset + 48),
-        [[L: zoom/file_not_modified]]
+        
         final(self).read.content() == old(self).read.content() && final(self).read.env_ok() == old(self).read.env_ok(),
-        [[L: zoom/first_call_succeeds_only_if_the_header_at_index_offset_validates_in_the_files_byte_order]]
+        
         first_level(old(self).info.zoom_headers@, reduction_level) matches Some(i) ==>
             (old(self).info.zoom_headers@[i].index_tree_offset is None && r is Ok ==>
                 tree_hdr_ok(is_big(old(self).info.header.endianness), old(self).read.content(), old(self).info.zoom_headers@[i].index_offset as int)),
-        [[L: zoom/first_call_accepts_a_valid_header]]
+        
         first_level(old(self).info.zoom_headers@, reduction_level) matches Some(i) ==>
             (old(self).info.zoom_headers@[i].index_tree_offset is None && old(self).read.env_ok()
                 && tree_hdr_ok(is_big(old(self).info.header.endianness), old(self).read.content(), old(self).info.zoom_headers@[i].index_offset as int)
                 ==> r is Ok),
-        [[L: zoom/first_call_reads_exactly_the_header]]
+        
         first_level(old(self).info.zoom_headers@, reduction_level) matches Some(i) ==>
             (old(self).info.zoom_headers@[i].index_tree_offset is None && r is Ok ==>
                 final(self).read.pos() == old(self).info.zoom_headers@[i].index_offset + 48),
-        [[L: zoom/cached_call_reads_nothing_and_cannot_fail]]
+        
         first_level(old(self).info.zoom_headers@, reduction_level) matches Some(i) ==>
             (old(self).info.zoom_headers@[i].index_tree_offset is Some ==> r is Ok && final(self).read == old(self).read),
-        [[L: zoom/wrong_magic_is_unknown_magic]]
+        
         first_level(old(self).info.zoom_headers@, reduction_level) matches Some(i) ==>
             (old(self).info.zoom_headers@[i].index_tree_offset is None && old(self).read.env_ok()
                 && tree_hdr_bad_magic(is_big(old(self).info.header.endianness), old(self).read.content(), old(self).info.zoom_headers@[i].index_offset as int)
                 ==> r matches Err(ZoomDataCirTreeError::UnknownMagic)),
-        [[L: zoom/unknown_magic_only_for_a_stored_header_without_the_magic]]
+        
         r matches Err(ZoomDataCirTreeError::UnknownMagic) ==> (first_level(old(self).info.zoom_headers@, reduction_level) matches Some(i)
             && old(self).info.zoom_headers@[i].index_tree_offset is None
             && tree_hdr_bad_magic(is_big(old(self).info.header.endianness), old(self).read.content(), old(self).info.zoom_headers@[i].index_offset as int)),
-        [[L: zoom/io_error_only_for_a_short_file_or_a_failing_environment]]
+        
         r matches Err(ZoomDataCirTreeError::IoError(_)) ==> (first_level(old(self).info.zoom_headers@, reduction_level) matches Some(i)
             && old(self).info.zoom_headers@[i].index_tree_offset is None
             && (!old(self).read.env_ok() || old(self).info.zoom_headers@[i].index_offset + 48 > old(self).read.content().len())),
-        [[L: zoom/first_success_caches_index_offset_plus_48_in_that_headers_slot]]
+        
         first_level(old(self).info.zoom_headers@, reduction_level) matches Some(i) ==>
             (old(self).info.zoom_headers@[i].index_tree_offset is None && r is Ok ==>
                 final(self).info.zoom_headers@[i].index_tree_offset == Some((old(self).info.zoom_headers@[i].index_offset + 48) as u64)),
-        [[L: zoom/cached_call_changes_nothing]]
+        
         first_level(old(self).info.zoom_headers@, reduction_level) matches Some(i) ==>
             (old(self).info.zoom_headers@[i].index_tree_offset is Some ==> final(self).info.zoom_headers@ == old(self).info.zoom_headers@),
-        [[L: zoom/header_and_full_slot_unchanged_only_the_matching_zoom_slot_may_change]]
+        
         first_level(old(self).info.zoom_headers@, reduction_level) matches Some(i) ==> same_but_zoom_slot(old(self).info, final(self).info, i),
-        [[L: zoom/info_header_unchanged]]
+        
         final(self).info.header == old(self).info.header && final(self).info.filetype == old(self).info.filetype
             && final(self).info.chrom_info == old(self).info.chrom_info,
-        [[L: zoom/an_error_caches_nothing]]
+        
         r is Err ==> final(self).info.zoom_headers@ == old(self).info.zoom_headers@,
-        [[L: zoom/cache_coherence_is_kept]]
+        
         offsets_ok(old(self).info) ==> offsets_ok(final(self).info),
-//@open
+{
         proof { lemma_first_level_from(self.info.zoom_headers@, reduction_level, 0); }
-//@end
+
+            let reader = &mut self.read; let info = &mut self.info;
+            let zoom_header = match zoom_find_mut(&mut info.zoom_headers, reduction_level)
+            {
+                Some(h) => h,
+                None => {
+                    return Err(ZoomDataCirTreeError::ReductionLevelNotFound);
+                }
+            };
+
+            if zoom_header.index_tree_offset.is_none() {
+                let endianness = info.header.endianness;
+
+                match reader
+                    .seek_start(zoom_header.index_offset) { Ok(v__) => v__, Err(e) => return Err(ZoomDataCirTreeError::IoError(e)) };
+
+                match read_cir_tree_header(endianness, reader) { Ok(v__) => v__, Err(e) => return Err(match e {
+                    Either::Left(_) => ZoomDataCirTreeError::UnknownMagic,
+                    Either::Right(e) => ZoomDataCirTreeError::IoError(e),
+                }) };
+
+                zoom_header.index_tree_offset = Some(zoom_header.index_offset + 48);
+            }
+
+            Ok(CirTreeIndex(
+                CirTreeIndexType::Zoom(reduction_level),
+                zoom_header.index_offset + 48,
+            ))
+        }
 }
 
 // ---------------- "after any sequence of earlier queries" ----------------
@@ -466,7 +773,7 @@ pub proof fn lemma_first_level_same_file(a: Seq<ZoomHeader>, b: Seq<ZoomHeader>,
 pub proof fn lemma_file_answer_ignores_the_caches(a: BBIFileInfo, b: BBIFileInfo, c: Seq<u8>, q: Lookup)
     requires same_file(a, b),
     ensures
-        [[L: driver/file_answer_is_independent_of_the_cache_state]]
+        
         file_answer(a, c, q) == file_answer(b, c, q),
 {
     assert forall|j: int| 0 <= j < a.zoom_headers@.len() implies (#[trigger] a.zoom_headers@[j]).reduction_level == b.zoom_headers@[j].reduction_level by {
@@ -484,12 +791,12 @@ fn lookup(b: &mut VBbi, q: &Lookup) -> (a: Answer)
     requires
         caches_valid(old(b).info, old(b).read.content()),
     ensures
-        [[L: driver/lookup_keeps_the_reader_coherent_and_validated_for_the_same_file]]
+        
         caches_valid(final(b).info, final(b).read.content()) && same_file(old(b).info, final(b).info)
             && final(b).read.content() == old(b).read.content() && final(b).read.env_ok() == old(b).read.env_ok(),
-        [[L: driver/a_tree_answer_is_the_files_answer_whatever_the_caches_hold]]
+        
         a is Tree ==> a == file_answer(old(b).info, old(b).read.content(), *q),
-        [[L: driver/without_io_failures_every_answer_is_the_files_answer]]
+        
         old(b).read.env_ok() ==> a == file_answer(old(b).info, old(b).read.content(), *q),
 {
     proof {
@@ -515,18 +822,18 @@ fn replay(b: &mut VBbi, ops: &Vec<Lookup>)
     requires
         caches_valid(old(b).info, old(b).read.content()),
     ensures
-        [[L: driver/any_history_keeps_the_reader_coherent_and_validated_for_the_same_file]]
+        
         caches_valid(final(b).info, final(b).read.content()) && same_file(old(b).info, final(b).info)
             && final(b).read.content() == old(b).read.content() && final(b).read.env_ok() == old(b).read.env_ok(),
 {
     let mut i: usize = 0;
     while i < ops.len()
         invariant
-            [[L: driver/loop_invariant]]
+            
             caches_valid(b.info, b.read.content()) && same_file(old(b).info, b.info)
                 && b.read.content() == old(b).read.content() && b.read.env_ok() == old(b).read.env_ok(),
         decreases
-            [[L: driver/termination]]
+            
             ops.len() - i,
     {
         let _ = lookup(b, &ops[i]);
@@ -541,9 +848,9 @@ fn driver_last_lookup_equals_a_fresh_readers(c: VBbi, fresh: VBbi, ops: &Vec<Loo
         no_caches(c.info), no_caches(fresh.info), same_file(c.info, fresh.info),
         c.read.content() == fresh.read.content(),
     ensures
-        [[L: driver/tree_answers_after_any_history_equal_the_fresh_readers]]
+        
         r.0 is Tree && r.1 is Tree ==> r.0 == r.1,
-        [[L: driver/without_io_failures_the_whole_answer_after_any_history_equals_the_fresh_readers]]
+        
         c.read.env_ok() && fresh.read.env_ok() ==> r.0 == r.1,
 {
     let mut c = c;
@@ -561,3 +868,4 @@ fn driver_last_lookup_equals_a_fresh_readers(c: VBbi, fresh: VBbi, ops: &Vec<Loo
 
 } // verus!
 fn main() {}
+
